@@ -606,7 +606,7 @@ COMPONENTS_RT = {
 }
 
 PROPS = {
-    "C17": dict(engine="rt", pkg="./engines/rt", race=True, quick_runs=6000, thorough_runs=400000, quick_budget=150, thorough_budget=2400,
+    "C17": dict(engine="rt", pkg="./engines/rt", race=True, quick_runs=6000, thorough_runs=400000, quick_budget=150, thorough_budget=1500,
                 level="exploration",
                 rule="one run = one tape: 1-16 tasks under the gated scheduler calling ValidatePattern/ValidateFormat on the shared "
                      "process-wide cache (2-40 calls per task quick, up to 120 thorough; pattern pool of 1-6 grammar-generated regexes, cold or "
@@ -616,7 +616,7 @@ PROPS = {
                              "well-formedness by construction follows the core grammar of the RFC each format names; only instances inside that core are generated",
                              "scheduling points are the rewritten sync operations and one yield before each call; data races between points are left to the race detector, "
                              "which sees only the program's own happens-before edges (gates are raw syscalls)"]),
-    "C13": dict(engine="rt", pkg="./engines/rt", race=False, quick_runs=20000, thorough_runs=2000000, quick_budget=120, thorough_budget=2400,
+    "C13": dict(engine="rt", pkg="./engines/rt", race=False, quick_runs=20000, thorough_runs=2000000, quick_budget=120, thorough_budget=1500,
                 level="exploration",
                 rule="one run = one seeded type graph (1-4 user/result types that may reference each other, depth <= 5, objects, arrays, maps, unions, 0-4 Meta keys per attribute incl. "
                      "several struct:field:* keys, validations): Hash under all 8 flag combinations and Dup evaluated under map orders sorted, reverse and 6 seeded permutations (MapOrder "
@@ -626,7 +626,7 @@ PROPS = {
                      "distinct = digest of the graph's hashes",
                 assumptions=["partly claimed: the hash<=>equality clause is input-only and rides along on the graphs that exist for the map-order and copy/mutate clauses",
                              "graphs are built directly from expr types (the DSL is not involved)", "a leaf that is only reachable behind a recursive reference is not required to change the hash"]),
-    "C15": dict(engine="rt", pkg="./engines/rt", race=True, quick_runs=4000, thorough_runs=400000, quick_budget=120, thorough_budget=2400,
+    "C15": dict(engine="rt", pkg="./engines/rt", race=True, quick_runs=4000, thorough_runs=400000, quick_budget=120, thorough_budget=1500,
                 level="exploration",
                 rule="one run = 12 (quick) / 40 (thorough) encoder<->decoder exchanges over SimNet (1-byte..whole chunking, chunked/length framing, header-case noise); "
                      "response direction: Accept value from a grammar (absent, exact, parameters, q-values, lists, wildcards, +suffix, mixed case, unsupported, garbage, empty) x designed "
@@ -636,7 +636,7 @@ PROPS = {
                 assumptions=["encoding/json, encoding/xml and encoding/gob are trusted to round-trip the generated values (only valid UTF-8 / XML characters are generated)",
                              "a pre-set Content-Type that goes out untouched is the handler's header, not one the encoder set, and is not judged",
                              "when Encode itself returns an error (e.g. a struct as text/plain) nothing is promised"]),
-    "C16": dict(engine="rt", pkg="./engines/rt", race=True, quick_runs=3000, thorough_runs=300000, quick_budget=120, thorough_budget=2400,
+    "C16": dict(engine="rt", pkg="./engines/rt", race=True, quick_runs=3000, thorough_runs=300000, quick_budget=120, thorough_budget=1500,
                 level="exploration",
                 rule="one run = one muxer: 1-6 patterns (literals, {name}, trailing {*name}, 4 methods), a registration history interleaving Use and Handle, middlewares that call "
                      "ResolvePattern/Vars before and/or after next; 12 (quick) / 40 (thorough) requests built by substituting url.PathEscape'd values (Unicode, '/', '%', %XX look-alikes, '+', "
@@ -644,7 +644,7 @@ PROPS = {
                      "distinct = digest of (request, handler reached, Vars) sequence per run",
                 assumptions=["when several registered patterns match a request, reaching any of them is accepted", "405 responses (path matches, method does not) are outside the property",
                              "chi refuses Use after the first Handle by panicking; that refusal is counted, not judged"]),
-    "C19": dict(engine="rt", pkg="./engines/rt", race=True, quick_runs=4000, thorough_runs=400000, quick_budget=150, thorough_budget=2400,
+    "C19": dict(engine="rt", pkg="./engines/rt", race=True, quick_runs=4000, thorough_runs=400000, quick_budget=150, thorough_budget=1500,
                 level="exploration",
                 rule="one run = one of: (a) 1-3 call chains of depth 1-4 over 1-4 shared nodes (RequestID -> Trace -> handler -> traced client -> next node), HTTP over SimNet or gRPC "
                      "unary/stream interceptors with a metadata hop, option combinations drawn per node (trust, custom header, limit 0..64, sampling 0/100/other/adaptive, discard pattern, "
@@ -653,7 +653,7 @@ PROPS = {
                      "over simulated time with clock steps backwards and jumps; distinct = digest of recorded ids per hop + schedule hash",
                 assumptions=["'truncated to the limit' is accepted in bytes or in characters", "fresh = encoded from entropy handed out by SimRand to the same task while that request was in its middlewares, or produced by that node's custom ID function",
                              "adaptive sampling and percentages strictly between 0 and 100 are not constrained by the property and only exercised"]),
-    "C20": dict(engine="rtgen", pkg="./engines/rt", race=True, quick_runs=3000, thorough_runs=300000, quick_budget=240, thorough_budget=3000,
+    "C20": dict(engine="rtgen", pkg="./engines/rt", race=True, quick_runs=3000, thorough_runs=300000, quick_budget=240, thorough_budget=1800,
                 quick_designs=16, thorough_designs=40, quick_gen_runs=2400, thorough_gen_runs=40000,
                 level="exploration",
                 rule="runtime half: one run = one of (a) 2-16 (thorough: up to 64) client tasks x 1-4 (thorough 1-10) requests (ok, catch-all, invalid, declared error, plain error, "
@@ -667,7 +667,7 @@ PROPS = {
                 assumptions=["the race detector only sees the program's own happens-before edges (gates are raw syscalls, no inlining so reports name the accessing function)",
                              "interleavings are explored at scheduling points only; what happens between two points is covered by the race detector, not by schedule search",
                              "sync.Pool inside chi/net/http/fmt keeps its per-P behaviour (no overlay): it can add happens-before edges and so hide, never invent, a race"]),
-    "C02": dict(engine="gen", race=False, quick_designs=64, thorough_designs=64, quick_runs=16000, thorough_runs=120000, quick_budget=120, thorough_budget=2400, thorough_batches=8,
+    "C02": dict(engine="gen", race=False, quick_designs=64, thorough_designs=64, quick_runs=16000, thorough_runs=120000, quick_budget=120, thorough_budget=1500, thorough_batches=8,
                 level="exploration",
                 rule="one batch = N seeded design specs (1-3 services x 1-4 methods; payload attributes of every primitive kind, arrays, maps, inline objects, named types, aliases, "
                      "required/default, every validation keyword, mapped to path/query/header/cookie/body) fed to goa through its public DSL, generated, compiled and linked into one binary; "
@@ -679,7 +679,7 @@ PROPS = {
                              "for a defaulted attribute held in a non-pointer Go field the sender cannot express 'unset'; such attributes are always sent with a non-zero value",
                              "absent and empty collections compare equal", "designs goa rejects or that fail to compile are dropped and counted (C01/C12 territory)"]),
 }
-PROPS["C09"] = dict(engine="dir", race=False, quick_histories=60, thorough_histories=1500, quick_crash_points=96, quick_budget=420, thorough_budget=3300,
+PROPS["C09"] = dict(engine="dir", race=False, quick_histories=60, thorough_histories=1500, quick_crash_points=96, quick_budget=420, thorough_budget=2400,
                     level="fault_enumeration",
                     rule="the real goa CLI and the generator it compiles and runs (both built from the rewritten copy), one process per step, over one output directory on tmpfs: "
                          "(A) determinism experiments: each of 3 (thorough 10) seeded designs generated into a fresh directory under reverse / seeded map orders, three clock origins and different "
